@@ -246,9 +246,18 @@ def scenario(exe, root, seed, stats):
                 dec2 = fx.decode(a)
                 if dec2.ok:
                     srcs = set()
+                    # a recorded file renamed since (found again by its inode under another path) is a source under its NEW name
+                    byino = {}
+                    for dd_ in a.disks:
+                        for dp_, dn_, fn_ in os.walk(a.ddir(dd_)):
+                            for n_ in fn_:
+                                q_ = os.path.join(dp_, n_)
+                                if os.path.isfile(q_) and not os.path.islink(q_): byino.setdefault((dd_, os.lstat(q_).st_ino), set()).add(os.fsencode(n_))
                     for f in dec.files:
                         if f['size'] > 0 and all(b[1] == 'b' for b in f['blocks']):
                             srcs.add((os.path.basename(f['sub']), f['size'], f['sec'], f['nsec']))
+                            for n_ in byino.get((dec.maps[f['mapping']][0].decode('latin-1'), f['inode']), ()):
+                                srcs.add((n_, f['size'], f['sec'], f['nsec']))
                     for disk in a.disks:
                         kn = set((f['size'], f['sec'], (f['nsec'] - 1) if f['nsec'] else 0) for f in dec.files if dec.maps[f['mapping']][0].decode('latin-1') == disk)
                         for f in dec2.files:
